@@ -9,6 +9,7 @@ pub mod linkmon;
 pub mod loopmon;
 pub mod scripts;
 pub mod srcmon;
+pub mod termination;
 pub mod winmon_count;
 pub mod winmon_time;
 
@@ -31,6 +32,7 @@ pub fn dispatch(args: &Args, report: &mut Report) {
                 scripts::run_reorder(args, report);
             }
         }
+        "C04" => termination::run(args, report),
         "C06" => scripts::run_c06(args, report),
         "C17" => scripts::run_c17(args, report),
         "C02" => linkmon::run_c02(args, report),
